@@ -53,7 +53,7 @@ package certurl
 //@   ensures[write-failure-surfaces] failed(w) ==> result != nil
 //@   ensures[invalid-chain-writes-nothing] !(len(certChain) > 0 && certChain[0].OCSPResponse != nil && (forall i int :: 1 <= i && i < len(certChain) ==> certChain[i].OCSPResponse == nil)) ==> result != nil && accepted(w) == old(accepted(w)) && !failed(w)
 //@   ensures accepted(w) >= old(accepted(w)) && accepted(w) - wrapped(w) == old(accepted(w) - wrapped(w))
-//@   assigns accepted(w), failed(w), content(w), wrapped(w), all(spos)
+//@   assigns accepted(w), failed(w), content(w), wrapped(w)
 //@   loop 0:
 //@     invariant enc != nil && enc.w == w && !failed(w)
 //@     invariant accepted(w) >= old(accepted(w)) && accepted(w) - wrapped(w) == old(accepted(w) - wrapped(w))
@@ -65,4 +65,29 @@ package certurl
 //@   requires enc != nil && enc.w != nil && !failed(enc.w) && ac.Cert != nil
 //@   ensures[write-failure-surfaces] failed(enc.w) ==> result != nil
 //@   ensures accepted(enc.w) >= old(accepted(enc.w)) && accepted(enc.w) - wrapped(enc.w) == old(accepted(enc.w) - wrapped(enc.w))
-//@   assigns accepted(enc.w), failed(enc.w), content(enc.w), wrapped(enc.w), all(spos)
+//@   assigns accepted(enc.w), failed(enc.w), content(enc.w), wrapped(enc.w)
+
+// Reading: each element has a parsed certificate whose Raw is the encoded
+// byte string; the chain read satisfies Validate.
+//@ func DecodeAugmentedCertificateFrom
+//@   props C17 C10
+//@   returns (ac, err)
+//@   requires dec != nil && dec.r != nil
+//@   ensures err == nil ==> ac != nil && fresh(ac) && ac.Cert != nil && (typeis(ac.Cert.PublicKey, *ecdsa.PublicKey) ==> (unboxed(ac.Cert.PublicKey, *ecdsa.PublicKey) != nil && unboxed(ac.Cert.PublicKey, *ecdsa.PublicKey).Curve != nil))
+//@   ensures spos(dec.r) >= old(spos(dec.r)) && spos(dec.r) <= send(dec.r)
+//@   assigns spos(dec.r)
+//@   loop 0:
+//@     invariant ac != nil && fresh(ac) && dec.r != nil && spos(dec.r) >= old(spos(dec.r))
+//@     invariant ac.Cert != nil ==> fresh(ac.Cert) && (typeis(ac.Cert.PublicKey, *ecdsa.PublicKey) ==> (unboxed(ac.Cert.PublicKey, *ecdsa.PublicKey) != nil && unboxed(ac.Cert.PublicKey, *ecdsa.PublicKey).Curve != nil))
+
+//@ func ReadCertChain
+//@   props C17 C10 C01
+//@   returns (chain, err)
+//@   requires r != nil
+//@   ensures[valid-chain] err == nil ==> len(chain) > 0 && chain[0].OCSPResponse != nil && (forall i int :: 1 <= i && i < len(chain) ==> chain[i].OCSPResponse == nil)
+//@   ensures err == nil ==> forall i int :: 0 <= i && i < len(chain) ==> chain[i] != nil && chain[i].Cert != nil && (typeis(chain[i].Cert.PublicKey, *ecdsa.PublicKey) ==> (unboxed(chain[i].Cert.PublicKey, *ecdsa.PublicKey) != nil && unboxed(chain[i].Cert.PublicKey, *ecdsa.PublicKey).Curve != nil))
+//@   ensures spos(r) >= old(spos(r)) && spos(r) <= send(r)
+//@   assigns spos(r)
+//@   loop 0:
+//@     invariant dec != nil && dec.r == r && (fresh(certChain) || cap(certChain) == 0) && spos(r) >= old(spos(r))
+//@     invariant forall k int :: 0 <= k && k < len(certChain) ==> certChain[k] != nil && fresh(certChain[k]) && certChain[k].Cert != nil && (typeis(certChain[k].Cert.PublicKey, *ecdsa.PublicKey) ==> (unboxed(certChain[k].Cert.PublicKey, *ecdsa.PublicKey) != nil && unboxed(certChain[k].Cert.PublicKey, *ecdsa.PublicKey).Curve != nil))
